@@ -561,7 +561,7 @@ func sizeShapes() (out []sizeShape) {
 	return
 }
 
-var sizeReaders = []string{"bytes", "plain", "onebyte"}
+var sizeReaders = []string{"bytes", "plain", "onebyte", "eofdata"}
 
 func sizeCfgs() (out []rtx) {
 	for _, c := range rtCfgs {
@@ -648,7 +648,7 @@ func sizeTrees() (out []sizeTree) {
 	return
 }
 
-var sizeCarReaders = []string{"bytes", "plain"}
+var sizeCarReaders = []string{"bytes", "plain", "eofdata"}
 
 func sizeClasses(thorough bool, deadline time.Time) {
 	lens := lengthMenu(thorough)
